@@ -214,6 +214,20 @@ def run(ctx):
     if n11 < 3:
         raise AnalysisBroken("only %d out-parameter sites (uninitialised local passed by address to an in-tree function and read afterwards) found" % n11)
 
+    # ---- D12: programs returned by the parser can be compiled safely whatever their names' length: the listing writers
+    # never use a (v)snprintf result as a length without bounding it (shared with C05 D1c)
+    from rules_common import check_snprintf_lengths
+    n12 = check_snprintf_lengths(db, [g for g in db.all_functions() if g.relfile.startswith("orc/")], rep, "D12-FMT-LENGTH")
+    rep.extra["snprintf_result_uses_judged"] = n12
+    # expected count on the unchanged tree is zero: positive control on every run
+    from driver import Report as _Report
+    fx = ctx.fixture_db(["fmtlen"])
+    frep = _Report("fixture")
+    check_snprintf_lengths(fx, fx.tu("fmtlen").main_functions(), frep, "FXF")
+    st = {o[1].split("|")[0].split("::")[1]: o[2] for o in frep.obligations}
+    if st != {"fmt_bad": "VIOLATED", "fmt_good": "held"}:
+        raise AnalysisBroken("snprintf-length positive control failed: %s" % st)
+
     # ---- D9: the text cursor never steps over the terminating NUL -------------------------------
     # OrcParser.p walks the caller's NUL-terminated text.  Advancing it by a constant k is safe only if the k bytes it
     # steps over are known to be non-NUL at that point (finite evaluation of the guards over a byte alphabet).
